@@ -69,26 +69,26 @@ P = {
 }
 # what later rounds added to a check's exploration (appended to its level text)
 EXTRA = {
- "C16": "Indexes in (-1, 0); maps holding a nil key; methods promoted through nil embedded values must error. Unsigned arguments beyond the signed range of the same width; exact conversion oracle; safe-wrapped keys count as the key inside. Containers of up to 65537 elements; accessor-style method names; the length filter against the traversal. Negative zero keys; numbers on number-keyed maps must find their entry; non-ASCII method names.",
- "C01": "Plus every ordered pair (thorough: triple) of some 170 statements - every tag with literal / name / conditional / interpolated / list / hash arguments. Flat chains of 600 / 1500 (thorough 9000) repetitions of 41 cheap elements. Literals where a test's name is expected; sources that are names; ladders with two nested blocks per embed level.",
- "C02": "Plus every context variable (incl. NaN-, interface-, bool- and struct-keyed maps) handed to every construct that takes a whole value (with-hash, template name, key-value loop, container filters ...); case-mapping oddities, long lists and fractional arguments for the filters. Every method of a struct x every variable as argument; structs embedding nil interfaces and pointers. 30 pattern-like strings in 11 forms for matches; divisors that truncate to zero. The executor's own names (loop, _self) bound to every variable; nil pointers to standard-library types. Hand templates under 26 names; structs holding cyclic containers; nil containers of types with methods; methods promoted through up to 13 levels from a nil value.",
- "C03": "Sources are read through readers of four shapes (all at once, byte by byte, halves, last bytes with io.EOF); near misses of endverbatim in verbatim bodies; templates defining a block name twice must be refused or rendered with every text run once. endraw and other end tags in verbatim bodies. Embeds with stray comments in the embed body. Vast layout (33..1025 characters of white space per boundary); readers with methods of their own. Non-text bytes in text runs; an eighth of the environments loads from files through the filesystem loader.",
+ "C16": "Indexes in (-1, 0); maps holding a nil key; methods promoted through nil embedded values must error. Unsigned arguments beyond the signed range of the same width; exact conversion oracle; safe-wrapped keys count as the key inside. Containers of up to 65537 elements; accessor-style method names; the length filter against the traversal. Negative zero keys; numbers on number-keyed maps must find their entry; non-ASCII method names. Shadowed and ambiguous field names across embedded structs.",
+ "C01": "Plus every ordered pair (thorough: triple) of some 170 statements - every tag with literal / name / conditional / interpolated / list / hash arguments. Flat chains of 600 / 1500 (thorough 9000) repetitions of 41 cheap elements. Literals where a test's name is expected; sources that are names; ladders with two nested blocks per embed level. Non-ASCII letters where names are expected.",
+ "C02": "Plus every context variable (incl. NaN-, interface-, bool- and struct-keyed maps) handed to every construct that takes a whole value (with-hash, template name, key-value loop, container filters ...); case-mapping oddities, long lists and fractional arguments for the filters. Every method of a struct x every variable as argument; structs embedding nil interfaces and pointers. 30 pattern-like strings in 11 forms for matches; divisors that truncate to zero. The executor's own names (loop, _self) bound to every variable; nil pointers to standard-library types. Hand templates under 26 names; structs holding cyclic containers; nil containers of types with methods; methods promoted through up to 13 levels from a nil value. ctxall(): a callback using everything its context offers, called from everywhere; multi-byte date formats.",
+ "C03": "Sources are read through readers of four shapes (all at once, byte by byte, halves, last bytes with io.EOF); near misses of endverbatim in verbatim bodies; templates defining a block name twice must be refused or rendered with every text run once. endraw and other end tags in verbatim bodies. Embeds with stray comments in the embed body. Vast layout (33..1025 characters of white space per boundary); readers with methods of their own. Non-text bytes in text runs; an eighth of the environments loads from files through the filesystem loader. An empty included template; the library's own MemoryLoader for an eighth of the environments.",
  "C04": "Every chain is also parsed without any dispensable blank and with a line break between any two tokens; operands of prefix operators also in parentheses. Every chain also inside ten contexts (subscript, argument lists, array, hash value and key, interpolation). Numbers may abut the word operator behind them. Bare computed hash keys. All-literal operands; a valuation of floats whose sums depend on the order.",
- "C05": "Hostile string literals (quotes, braces, delimiters), callback-computed hash keys, indexes after a dot followed by a further access, bitwise operands beyond 16 bits, negative divisors. Leading-zero literals; non-numeric needles in ranges. Every operand form as subscript of a hash and a list; backslash strings. Signed numeric strings.",
- "C06": "loop.parent chains as long as the nesting; ranges written directly in the tag. 48 carriers of a condition value against the documented truth table in seven condition positions. Implementers of two disagreeing coercion interfaces; loop bookkeeping over maps with 2-4 entries. Loop bodies that are overridden blocks; traps in everything not selected; loops of up to 4097 passes and 40 loops deep. Loops in templates included / embedded from inside a loop.",
- "C07": "54 enumerated chains child -> [middle ->] layout with assignments at the top level of every template. Inline loop conditions rejecting the first or every element. An assigning host macro called from an included target. Parameters and variables named loop; sets in for-else branches; sets inside blocks rendered for their value. Underscore names; include expressions that assign through a callback.",
- "C08": "White-space-only leaves; one leaf in 40 ends the execution with an error (nothing collected by open captures may show). Captures and assignments outside the blocks of an extending template that call macros defined there. 300 (thorough 3000) captures, block() and parent() calls in one execution. Captured values handed to a recording callback; captures in for-else branches. Re-entrant render() callbacks; empty blocks inside captures filled by a child; values produced inside do; renders into io.Discard.",
- "C09": "Alias chains in one use statement rendered eight times (either reading, but the same one); nested re-definition of another layout block with parent(); blockless embeds in overrides. Library blocks defined inside if / for / capture / filter; imported blocks with a nested block before parent(). parent() inside captures and filter sections; chains of 40 / 300 (thorough 1000) templates. Near-miss block names; padded template names with decoys; self-extension. extends after blocks; a macro call before parent(); parent names from a recorded callback.",
- "C10": "with-hashes of six Go map types incl. map[interface{}]interface{} and *map. Targets whose blocks come from use alone; conditional with-expressions; the target calls an assigning host macro. Dot-prefixed names in directories with decoys; terminating self-inclusion. Name and with-hash expressions that assign; callback logs compared; render()-based recursion.",
- "C11": "An eleventh use: defined / imported at the top level of an extending template and called in its block; a third of the cases spelled wide, a third tight. A twelfth use: called from assignments at the top level of an extending template. Embedded / included templates defining macros under the host's names; unknown macro of an alias whose name a from-import binds. Macros with up to 130 parameters; macros and parameters named like built-ins (block, parent, varargs, loop ...). Import aliases colliding with parameters and loop variables.",
- "C12": "37 template names, incl. file names containing %, {, }} and #. Container types with a String method and a value marked safe for no type among the wrappers. Escape strategies taken from variables and expressions. Path elements spelling extensions; a Stringer that changes its answer; strategy names of other Go types. Names twig, .twig ...; escape with further arguments.",
- "C13": "Long values aligned to every offset within 12 bytes of 2^6..2^13 (thorough: 2^17); scheme prefixes and partial escape introducers in the boundary alphabet. Six rounds of 16 concurrent callers of all escapers. Whole strings (numbers in every Go spelling, URLs, entity-like text); long values of 32 and 64 KiB. Runs of one expanding character.",
- "C14": "Hashes directly in front of closing delimiters, inside brackets and arguments, and holding interpolated strings (closing braces may touch). Filters behind signed literals; long templates aligning every tail token with token numbers 128 .. 16384. Strings with a '#' that opens no interpolation, in both quote kinds. Backslash strings; 1100 / 4200 / 66000 characters of white space at every boundary. Differences whose right operand begins like a word operator.",
- "C15": "Float carriers for every integer the float holds exactly (also beyond 2^53). uintptr, decimal.Decimal and Number implementers as carriers; nil embedded interfaces. A typed nil pointer to an application-defined safe value; two nil embedded pointers. Numeric types with Error / Format / GoString methods; a foreign safe wrapper with coercion methods of its own; structs embedding a nil SafeValue. *decimal.Decimal and Number implementers of any size as carriers; digit strings around 2^64.",
- "C17": "Every writer fault also through a destination with WriteString; ten kinds of failing sub-expression. Loads outside the blocks of an extending template as fault points; 17 templates that cannot succeed. Modulo by a divisor that truncates to zero must be an error. More templates that cannot succeed (aliases equal to missing names, lenient forms of other Twig dialects around failing templates). Failing name expressions next to a template called \"\".",
- "C18": "Sequential results from a fresh environment pair per template; every -race worker starts cold (all templates walked concurrently before anything has run); names with two meanings across templates; replace with overlapping keys. date / number_format / json_encode templates over time.Time and decimal values. Filter sections naming escape / e / raw next to templates applying the same filters to values. A loader with one shared error value; a filesystem loader with a relative root; duplicate from-import / use aliases. 112 kinds of syntax error under the race detector; a visitor that re-enters its environment behind a parse-time barrier.",
- "C19": "Files of 0, 4097, 1 MiB and 9 MiB bytes. Symbolic links and dotted names in the filesystem fixture. A name with .. leading to an existing file outside the root. Files beginning with byte order marks and magic numbers. Broken interpolations among the files.",
- "C20": "Multi-word operators and tests with their words on different lines; names and indexes after a dot are anchors. A template whose read fails must be named by the error. Truncation errors must point at the end of input, the open tag's name or a token of the cut tag; surplus literals of every spelling (name-like ones behind end-tag names and else). Positions beyond line and column 65536. Unknown tags in embed bodies; a loader of anonymous templates.",
+ "C05": "Hostile string literals (quotes, braces, delimiters), callback-computed hash keys, indexes after a dot followed by a further access, bitwise operands beyond 16 bits, negative divisors. Leading-zero literals; non-numeric needles in ranges. Every operand form as subscript of a hash and a list; backslash strings. Signed numeric strings. Multi-entry hashes with callbacks in keys and values; parenthesised simple keys.",
+ "C06": "loop.parent chains as long as the nesting; ranges written directly in the tag. 48 carriers of a condition value against the documented truth table in seven condition positions. Implementers of two disagreeing coercion interfaces; loop bookkeeping over maps with 2-4 entries. Loop bodies that are overridden blocks; traps in everything not selected; loops of up to 4097 passes and 40 loops deep. Loops in templates included / embedded from inside a loop. Struct elements with pointer-receiver methods: loop element against indexed element.",
+ "C07": "54 enumerated chains child -> [middle ->] layout with assignments at the top level of every template. Inline loop conditions rejecting the first or every element. An assigning host macro called from an included target. Parameters and variables named loop; sets in for-else branches; sets inside blocks rendered for their value. Underscore names; include expressions that assign through a callback. A kept loop record.",
+ "C08": "White-space-only leaves; one leaf in 40 ends the execution with an error (nothing collected by open captures may show). Captures and assignments outside the blocks of an extending template that call macros defined there. 300 (thorough 3000) captures, block() and parent() calls in one execution. Captured values handed to a recording callback; captures in for-else branches. Re-entrant render() callbacks; empty blocks inside captures filled by a child; values produced inside do; renders into io.Discard. Empty captures are empty strings; sections naming absent filters.",
+ "C09": "Alias chains in one use statement rendered eight times (either reading, but the same one); nested re-definition of another layout block with parent(); blockless embeds in overrides. Library blocks defined inside if / for / capture / filter; imported blocks with a nested block before parent(). parent() inside captures and filter sections; chains of 40 / 300 (thorough 1000) templates. Near-miss block names; padded template names with decoys; self-extension. extends after blocks; a macro call before parent(); parent names from a recorded callback. use of the extended template.",
+ "C10": "with-hashes of six Go map types incl. map[interface{}]interface{} and *map. Targets whose blocks come from use alone; conditional with-expressions; the target calls an assigning host macro. Dot-prefixed names in directories with decoys; terminating self-inclusion. Name and with-hash expressions that assign; callback logs compared; render()-based recursion. Backslash names; with-keys _context / _charset.",
+ "C11": "An eleventh use: defined / imported at the top level of an extending template and called in its block; a third of the cases spelled wide, a third tight. A twelfth use: called from assignments at the top level of an extending template. Embedded / included templates defining macros under the host's names; unknown macro of an alias whose name a from-import binds. Macros with up to 130 parameters; macros and parameters named like built-ins (block, parent, varargs, loop ...). Import aliases colliding with parameters and loop variables. Macros defined inside constructs of a library.",
+ "C12": "37 template names, incl. file names containing %, {, }} and #. Container types with a String method and a value marked safe for no type among the wrappers. Escape strategies taken from variables and expressions. Path elements spelling extensions; a Stringer that changes its answer; strategy names of other Go types. Names twig, .twig ...; escape with further arguments. Inline sources with lone braces and with line breaks in delimiters; negative numbers as values.",
+ "C13": "Long values aligned to every offset within 12 bytes of 2^6..2^13 (thorough: 2^17); scheme prefixes and partial escape introducers in the boundary alphabet. Six rounds of 16 concurrent callers of all escapers. Whole strings (numbers in every Go spelling, URLs, entity-like text); long values of 32 and 64 KiB. Runs of one expanding character. Tokens of other languages and terminals as whole strings.",
+ "C14": "Hashes directly in front of closing delimiters, inside brackets and arguments, and holding interpolated strings (closing braces may touch). Filters behind signed literals; long templates aligning every tail token with token numbers 128 .. 16384. Strings with a '#' that opens no interpolation, in both quote kinds. Backslash strings; 1100 / 4200 / 66000 characters of white space at every boundary. Differences whose right operand begins like a word operator. Text beginning with closing braces behind an interpolation.",
+ "C15": "Float carriers for every integer the float holds exactly (also beyond 2^53). uintptr, decimal.Decimal and Number implementers as carriers; nil embedded interfaces. A typed nil pointer to an application-defined safe value; two nil embedded pointers. Numeric types with Error / Format / GoString methods; a foreign safe wrapper with coercion methods of its own; structs embedding a nil SafeValue. *decimal.Decimal and Number implementers of any size as carriers; digit strings around 2^64. Own methods over nil embedded values of the same names.",
+ "C17": "Every writer fault also through a destination with WriteString; ten kinds of failing sub-expression. Loads outside the blocks of an extending template as fault points; 17 templates that cannot succeed. Modulo by a divisor that truncates to zero must be an error. More templates that cannot succeed (aliases equal to missing names, lenient forms of other Twig dialects around failing templates). Failing name expressions next to a template called \"\". Standard-library error values for failing reads; callbacks registered under Twig's names.",
+ "C18": "Sequential results from a fresh environment pair per template; every -race worker starts cold (all templates walked concurrently before anything has run); names with two meanings across templates; replace with overlapping keys. date / number_format / json_encode templates over time.Time and decimal values. Filter sections naming escape / e / raw next to templates applying the same filters to values. A loader with one shared error value; a filesystem loader with a relative root; duplicate from-import / use aliases. 112 kinds of syntax error under the race detector; a visitor that re-enters its environment behind a parse-time barrier. A second environment built and configured during every round; a callback filling the hash literal it is handed.",
+ "C19": "Files of 0, 4097, 1 MiB and 9 MiB bytes. Symbolic links and dotted names in the filesystem fixture. A name with .. leading to an existing file outside the root. Files beginning with byte order marks and magic numbers. Broken interpolations among the files. Links to procfs files.",
+ "C20": "Multi-word operators and tests with their words on different lines; names and indexes after a dot are anchors. A template whose read fails must be named by the error. Truncation errors must point at the end of input, the open tag's name or a token of the cut tag; surplus literals of every spelling (name-like ones behind end-tag names and else). Positions beyond line and column 65536. Unknown tags in embed bodies; a loader of anonymous templates. Duplicate-block errors; the 'in NAME' of a message must be the template.",
 }
 
 NOT_BUILT_REASON = "check not built yet in this round (planned: see DESIGN.md section for this property)"
